@@ -64,7 +64,7 @@ Proof.
   unfold match_at. change (p_hasbackrefs prog) with false. change (p_op prog) with (OSeq [OAtom p; OEnd]).
   change (p_case prog) with ci. change (p_multi prog) with multi.
   set (s2 := {| cs_ := cs_ (set_pstart 0 j (set_pcount 1 s)); sb := sb (set_pstart 0 j (set_pcount 1 s));
-                eb := eb (set_pstart 0 j (set_pcount 1 s)); anchored := false; hist := hist (set_pstart 0 j (set_pcount 1 s)) |}).
+                eb := eb (set_pstart 0 j (set_pcount 1 s)); anchored := false; hist := [] |}).
   assert (E2a : startn (cs_ s2) = [Some j; None; None]).
   { unfold s2, set_pstart, set_pcount, with_cs. cbn [cs_ startn]. rewrite Ea. rewrite setg0_eq by (cbn; lia). reflexivity. }
   assert (E2b : endn (cs_ s2) = [b; None; None]).
